@@ -41,6 +41,9 @@ type Ctx struct {
 	nontrivial bool
 	sig        uint64
 	sample     interface{}
+
+	// Scratch holds per-case state shared between helpers of a property (e.g. the exactness budget).
+	Scratch map[string]interface{}
 }
 
 const traceCap = 4000
@@ -53,6 +56,7 @@ func newCtx(prop string, seed uint64, index int, tier string, traceOn bool) *Ctx
 		counters: map[string]int64{},
 		maxes:    map[string]float64{},
 		sig:      rng.Hash(rng.HashString(prop)),
+		Scratch:  map[string]interface{}{},
 	}
 }
 
@@ -209,5 +213,5 @@ func (c *Ctx) CounterValue(name string) int64 { return c.counters[name] }
 
 // NewDetachedCtx returns a context that only serves generators (counters are discarded).
 func NewDetachedCtx(r *rng.Rng) *Ctx {
-	return &Ctx{R: r, counters: map[string]int64{}, maxes: map[string]float64{}}
+	return &Ctx{R: r, counters: map[string]int64{}, maxes: map[string]float64{}, Scratch: map[string]interface{}{}}
 }
